@@ -208,6 +208,45 @@ class TLoop: public SystemClockLoop {
     unsigned long clockMillis() const override { return counter_now_ul(); }
 };
 
+// C13 with loop() as the poller: "any polling schedule" includes an application that never calls getNow() for minutes
+// and relies on SystemClockLoop::loop() (whose keepAlive() services the 16-bit millisecond bookkeeping), with no
+// reference clock or with one that never answers.  The clock is read once, at the end.
+static void c13_loop_pollers(int shard, long long seed, long long n) {
+  Rng rng(seed * 77 + shard + 3);
+  for (long long k = 0; k < n; k++) {
+    static const unsigned long bases[5] = {0UL, 0xFFFF0000UL, 0x7FFFFFF0UL, 0UL - 70000UL, 0xFFFFFFFFUL - 70000UL};
+    g_base_ul = bases[rng.below(5)] + rng.below(2000); g_base = (uint32_t) g_base_ul; g_true_ms = 0;
+    int wiring = (int) rng.below(2);            // 0: no reference clock; 1: a reference clock that is never ready
+    LogClock ref; ref.ready = false;
+    TLoop c(wiring ? &ref : nullptr, nullptr, 3600, 5, 1000);
+    acetime_t T = (acetime_t) rng.range(1, 1500000000);
+    c.setNow(T);
+    int steps = 3 + (int) rng.below(40);
+    uint32_t maxgap = 0;
+    for (int i = 0; i < steps; i++) {
+      uint32_t gap;
+      switch (rng.below(6)) {
+        case 0: gap = 1 + rng.below(5); break;
+        case 1: gap = 64536 - rng.below(3); break;
+        case 2: gap = 1000 * (1 + rng.below(64)); break;
+        default: gap = 1 + rng.below(64536); break;
+      }
+      if (gap > maxgap) maxgap = gap;
+      g_true_ms += gap;
+      c.loop();
+      CNT.add("c13.loop_polls");
+    }
+    acetime_t r = c.getNow();
+    acetime_t want = (acetime_t) (T + (int64_t) (g_true_ms / 1000));
+    CNT.add("c13.loop_poller_schedules");
+    if (g_true_ms > 65536) CNT.add("c13.loop_poller_schedules_longer_than_16_bits");
+    if (r != want) {
+      J j; j.num("wiring", wiring).num("T", T).num("elapsed_ms", (long long) g_true_ms).num("polls", steps).num("max_gap_ms", maxgap).num("read", r).num("want", want);
+      witness("c13:reading-wrong-with-loop-as-poller", "polled only through SystemClockLoop::loop() (gaps <= 64536 ms) the clock does not read T + floor((m - m0)/1000)", j);
+    }
+  }
+}
+
 struct Cfg { uint16_t S, I, TO; int wiring; };   // wiring 0: ref==backup, 1: distinct, 2: no backup, 3: no reference
 struct Step { uint32_t adv; uint8_t outcome; };   // outcome 0 not ready, 1 valid new, 2 valid same-as-clock, 3 invalid
 
@@ -464,7 +503,7 @@ int main(int argc, char** argv) {
   Args a(argc, argv);
   std::string mode = a.get("mode");
   if (mode == "c13pairs") c13_pairs(a.shard(), a.nshards(), a.has("allgaps"));
-  else if (mode == "c13sched") c13_schedules(a.shard(), a.num("seed", 0), a.num("steps", 100000));
+  else if (mode == "c13sched") { c13_schedules(a.shard(), a.num("seed", 0), a.num("steps", 100000)); c13_loop_pollers(a.shard(), a.num("seed", 0), a.num("steps", 100000) / 200 + 50); }
   else if (mode == "c14enum") { c14_enum(a.shard(), a.nshards(), (int) a.num("depth", 5)); emit_cov(); }
   else if (mode == "c14random") { c14_random(a.shard(), a.num("seed", 0), a.num("walks", 100), (int) a.num("len", 2000)); emit_cov(); }
   else { fprintf(stderr, "unknown mode\n"); return 3; }
